@@ -107,12 +107,18 @@ func (c *compiler) placeholder() []byte {
 
 func (c *compiler) patchJump(placeholder int) {
 	offset := len(c.bytecode) - 2 - placeholder
+	if offset > math.MaxUint16 {
+		panic("exceeded max jump offset: the expression is too large to compile")
+	}
 	b := encode(uint16(offset))
 	c.bytecode[placeholder] = b[0]
 	c.bytecode[placeholder+1] = b[1]
 }
 
 func (c *compiler) calcBackwardJump(to int) []byte {
+	if len(c.bytecode)+1+2-to > math.MaxUint16 {
+		panic("exceeded max jump offset: the expression is too large to compile")
+	}
 	return encode(uint16(len(c.bytecode) + 1 + 2 - to))
 }
 
